@@ -7,3 +7,8 @@ import "github.com/kubewharf/kubegateway/pkg/flowcontrols/remote"
 // VerifReconcile exposes the reconcile object of an upstream limiter so that a
 // harness can play its loop step by step.
 func VerifReconcile(l UpstreamLimiter) remote.Reconcile { return l.(*upstreamLimiter).reconcile }
+
+// VerifCounterProvider exposes the global counter manager of an upstream limiter.
+func VerifCounterProvider(l UpstreamLimiter) remote.GlobalCounterProvider {
+	return l.(*upstreamLimiter).globalCounterProvider
+}
